@@ -18,8 +18,20 @@ same constants, so the correspondence run compares the code with the model *of t
   statsAligns           `stats` calls `validate_arrays(zones, values)` (which rechunks the values)
   crosstab2dAligns  D12 2-D dask `crosstab` brings the values onto the zones chunking
   crosstab3dAligns      the 3-D dask path does
+  stridesBits           width of the integer array `_strides` returns (the crosstab counts are differences of it)
+  pctNumpy / pctDask    the `percentage` expression of `_crosstab_numpy` / `_crosstab_df_dask`, translated into a
+                        `PExpr` tree (Model/Crosstab.lean) over count / total / literals / `*` / `/`
+
+Equivalent spellings.  The recognisers work on a *normalised* view of the source, so that a rewrite that cannot
+change behaviour does not change a fact: a name that is assigned exactly once is replaced by its value (`inline`),
+`for i in range(len(xs))` + `xs[i]`, `for x in xs`, `for i, x in enumerate(xs)` are the same loop (`elem_loops`;
+`range(1, len(xs))` / `xs[1:]` = the elements after the first), positional and keyword arguments of the numpy
+reductions are the same call (`canon`), `float('nan')` / `math.nan` / `np.nan` / `np.NaN` are the same constant,
+a filtering list comprehension and the loop appending to a fresh list are the same selection (`selections`).
+Whatever is still not recognised after that is reported as unknown / false.
 """
 import ast
+import copy
 import os
 
 REL = "xrspatial/zonal.py"
@@ -44,7 +56,258 @@ def lean_strs(xs):
     return "[" + ", ".join('"' + x.replace('"', "'") + '"' for x in xs) + "]"
 
 
+# ---------------------------------------------------------------- normalisation (equivalent spellings)
+class _Subst(ast.NodeTransformer):
+    def __init__(self, env):
+        self.env = env
+
+    def visit_Name(self, n):
+        if isinstance(n.ctx, ast.Load) and n.id in self.env:
+            return ast.copy_location(copy.deepcopy(self.env[n.id]), n)
+        return n
+
+
+MUTATORS = ("append", "extend", "sort", "insert", "pop", "remove", "update", "clear", "fill", "put", "resize", "setdefault",
+            "itemset", "partition", "byteswap", "setflags")
+
+
+def single_assignments(func):
+    """{name: value} for the local names that are bound exactly once in `func`, by a plain `name = value`
+    (no augmented assignment, not a loop / with / comprehension target, not a parameter), whose value does not
+    mention the name itself: such a name is a temporary and can be replaced by its value wherever it is read"""
+    counts, values = {}, {}
+    params = {a.arg for a in func.args.args + func.args.kwonlyargs + func.args.posonlyargs}
+    if func.args.vararg:
+        params.add(func.args.vararg.arg)
+    if func.args.kwarg:
+        params.add(func.args.kwarg.arg)
+    for n in ast.walk(func):
+        if isinstance(n, ast.Name) and isinstance(n.ctx, (ast.Store, ast.Del)):
+            counts[n.id] = counts.get(n.id, 0) + 1
+        if isinstance(n, ast.Assign) and len(n.targets) == 1 and isinstance(n.targets[0], ast.Name):
+            values[n.targets[0].id] = n.value
+    mutated = set()
+    for n in ast.walk(func):
+        if isinstance(n, (ast.Subscript, ast.Attribute)) and isinstance(n.ctx, (ast.Store, ast.Del)) and isinstance(n.value, ast.Name):
+            mutated.add(n.value.id)
+        if isinstance(n, ast.AugAssign):
+            t = n.target
+            while isinstance(t, (ast.Subscript, ast.Attribute)):
+                t = t.value
+            if isinstance(t, ast.Name):
+                mutated.add(t.id)
+        if isinstance(n, ast.Call) and isinstance(n.func, ast.Attribute) and isinstance(n.func.value, ast.Name) \
+                and n.func.attr in MUTATORS:
+            mutated.add(n.func.value.id)
+        if isinstance(n, ast.Call) and any(k.arg == "out" for k in n.keywords):
+            mutated.update(m.id for k in n.keywords if k.arg == "out" for m in ast.walk(k.value) if isinstance(m, ast.Name))
+    out = {}
+    for k, v in values.items():
+        free = {m.id for m in ast.walk(v) if isinstance(m, ast.Name)} - {"np", "da", "math"}
+        if free & mutated:
+            continue
+        # the names the value reads must be stable themselves (parameters never rebound, names bound at most once)
+        stable = all(counts.get(f, 0) <= (0 if f in params else 1) for f in free)
+        if counts.get(k) == 1 and k not in params and k not in free and stable:
+            out[k] = v
+    return out
+
+
+def single_assignments_raw(func):
+    """{name: value} of the names bound exactly once by a plain assignment, without the stability conditions"""
+    counts, values = {}, {}
+    for n in ast.walk(func):
+        if isinstance(n, ast.Name) and isinstance(n.ctx, (ast.Store, ast.Del)):
+            counts[n.id] = counts.get(n.id, 0) + 1
+        if isinstance(n, ast.Assign) and len(n.targets) == 1 and isinstance(n.targets[0], ast.Name):
+            values[n.targets[0].id] = n.value
+    return {k: v for k, v in values.items() if counts.get(k) == 1}
+
+
+def pure_expr(v):
+    """no call except a few value-only ones: replacing a name by such an expression cannot reorder effects"""
+    for m in ast.walk(v):
+        if isinstance(m, ast.Call):
+            fn = u(m.func)
+            value_only = fn in ("len", "range", "list", "tuple", "type", "isinstance", "float", "int") or \
+                (fn.startswith("np.") and fn.count(".") == 1 and not fn.startswith("np.random")) or \
+                (isinstance(m.func, ast.Attribute) and m.func.attr in ("ravel", "astype", "reshape", "sum", "max", "min"))
+            if not value_only or any(k.arg == "out" for k in m.keywords):
+                return False
+        if isinstance(m, (ast.Lambda, ast.ListComp, ast.DictComp, ast.SetComp, ast.GeneratorExp, ast.Await, ast.Yield,
+                          ast.Dict, ast.List, ast.Set)):       # a fresh mutable object is not a value
+            return False
+    return True
+
+
+def inline(node, func, only=None, depth=4):
+    """`node` with the temporaries of `func` replaced by their values (repeated: temporaries of temporaries)"""
+    env = {k: v for k, v in single_assignments(func).items() if pure_expr(v) and (only is None or k in only)}
+    node = copy.deepcopy(node)
+    for _ in range(depth):
+        before = ast.dump(node)
+        node = _Subst(env).visit(node)
+        if ast.dump(node) == before:
+            break
+    return node
+
+
+NAN_SPELLINGS = ("np.nan", "np.NaN", "np.NAN", "numpy.nan", "math.nan", "float('nan')", 'float("nan")', "float('NaN')")
+AXIS_REDUCTIONS = ("np.nanmax", "np.nanmin", "np.nansum", "np.all", "np.any", "np.sum", "np.max", "np.min")
+
+
+class _Canon(ast.NodeTransformer):
+    """np.nan spellings -> np.nan; `np.nansum(b, 0)` -> `np.nansum(b, axis=0)`; redundant parentheses vanish in unparse"""
+
+    def visit_Call(self, n):
+        self.generic_visit(n)
+        if ast.unparse(n).replace(" ", "") in NAN_SPELLINGS:
+            return ast.copy_location(ast.parse("np.nan", mode="eval").body, n)
+        if ast.unparse(n.func) in AXIS_REDUCTIONS and len(n.args) == 2 and not any(k.arg == "axis" for k in n.keywords):
+            n.keywords = [ast.keyword(arg="axis", value=n.args[1])] + n.keywords
+            n.args = n.args[:1]
+        return n
+
+    def visit_Attribute(self, n):
+        self.generic_visit(n)
+        if ast.unparse(n) in NAN_SPELLINGS:
+            return ast.copy_location(ast.parse("np.nan", mode="eval").body, n)
+        return n
+
+
+def canon(node):
+    return _Canon().visit(copy.deepcopy(node))
+
+
+def cu(node):
+    """canonical text of an expression / statement"""
+    return u(canon(node))
+
+
+def elem_loops(func, seq, tail=False, within=None):
+    """the `for` loops of `func` that visit the elements of `seq` (tail: the elements after the first) once each, in
+    order, in any of the usual spellings; yields (loop, element text): the text that denotes the current element in the body.
+    Temporaries are inlined first (`rest = seq[1:]; for x in rest`)."""
+    nodes = ast.walk(func) if within is None else (m for st in within for m in ast.walk(st))
+    for n in nodes:
+        if not isinstance(n, ast.For) or n.orelse:
+            continue
+        it = u(inline(n.iter, func))
+        tgt = n.target
+        whole, rest = seq, f"{seq}[1:]"
+        want = rest if tail else whole
+        if isinstance(tgt, ast.Name):
+            if it == want or it in (f"list({want})", f"tuple({want})"):
+                yield n, tgt.id
+            elif not tail and it in (f"range(len({seq}))", f"range(0,len({seq}))"):
+                yield n, f"{seq}[{tgt.id}]"
+            elif tail and it == f"range(1,len({seq}))":
+                yield n, f"{seq}[{tgt.id}]"
+        elif isinstance(tgt, ast.Tuple) and len(tgt.elts) == 2 and all(isinstance(e, ast.Name) for e in tgt.elts):
+            if it == f"enumerate({want})" or (tail and it == f"enumerate({rest},1)") or (tail and it == f"enumerate({rest},start=1)"):
+                yield n, tgt.elts[1].id
+
+
+class _Rename(ast.NodeTransformer):
+    """replace every expression whose text is a key of `table` by the name it maps to"""
+
+    def __init__(self, table):
+        self.table = table
+
+    def visit(self, n):
+        if isinstance(n, ast.expr) and u(n) in self.table:
+            return ast.copy_location(ast.Name(id=self.table[u(n)], ctx=ast.Load()), n)
+        return self.generic_visit(n)
+
+
+def body_text(stmts, func, table):
+    """canonical text of a statement list with the temporaries inlined and the expressions of `table`
+    (current element, first element, ...) replaced by placeholder names"""
+    out = []
+    for st in stmts:
+        if isinstance(st, ast.Expr) and isinstance(st.value, ast.Constant):
+            continue                                          # docstring / stray string
+        out.append(u(_Rename(table).visit(canon(inline(st, func)))))
+    return out
+
+
+def selections(func):
+    """the `name = [x for x in ITER if x in CONT]` selections of `func`, also when written as a loop that appends
+    to a fresh list (optionally renamed afterwards): [(name, ITER text, CONT text)]"""
+    out = []
+    fresh = {}
+    for n in ast.walk(func):
+        if isinstance(n, ast.Assign) and len(n.targets) == 1 and isinstance(n.targets[0], ast.Name):
+            name, v = n.targets[0].id, n.value
+            if isinstance(v, ast.ListComp) and len(v.generators) == 1 and len(v.generators[0].ifs) == 1 \
+                    and not v.generators[0].is_async:
+                g = v.generators[0]
+                x = u(g.target)
+                t = g.ifs[0]
+                if u(v.elt) == x and isinstance(t, ast.Compare) and len(t.ops) == 1 and isinstance(t.ops[0], ast.In) \
+                        and u(t.left) == x:
+                    out.append((name, u(g.iter), u(t.comparators[0])))
+            if isinstance(v, ast.List) and not v.elts:
+                fresh[name] = n.lineno
+    for n in ast.walk(func):
+        if isinstance(n, ast.For) and not n.orelse and isinstance(n.target, ast.Name) and len(n.body) == 1 \
+                and isinstance(n.body[0], ast.If) and not n.body[0].orelse and len(n.body[0].body) == 1:
+            x, t, act = n.target.id, n.body[0].test, n.body[0].body[0]
+            if isinstance(t, ast.Compare) and len(t.ops) == 1 and isinstance(t.ops[0], ast.In) and u(t.left) == x \
+                    and isinstance(act, ast.Expr) and isinstance(act.value, ast.Call):
+                call = act.value
+                if isinstance(call.func, ast.Attribute) and call.func.attr == "append" and isinstance(call.func.value, ast.Name) \
+                        and call.func.value.id in fresh and fresh[call.func.value.id] < n.lineno \
+                        and len(call.args) == 1 and u(call.args[0]) == x:
+                    acc = call.func.value.id
+                    out.append((acc, u(n.iter), u(t.comparators[0])))
+                    for m in ast.walk(func):      # `zone_ids = selected` afterwards
+                        if isinstance(m, ast.Assign) and len(m.targets) == 1 and isinstance(m.targets[0], ast.Name) \
+                                and isinstance(m.value, ast.Name) and m.value.id == acc and m.lineno > n.lineno:
+                            out.append((m.targets[0].id, u(n.iter), u(t.comparators[0])))
+    return out
+
+
+def call_args(call, funcdef):
+    """the arguments of `call` in the order of `funcdef`'s parameters (keywords resolved); None if that is not possible"""
+    names = [a.arg for a in funcdef.args.args]
+    got = {}
+    for i, a in enumerate(call.args):
+        if isinstance(a, ast.Starred) or i >= len(names):
+            return None
+        got[names[i]] = a
+    for k in call.keywords:
+        if k.arg is None or k.arg not in names or k.arg in got:
+            return None
+        got[k.arg] = k.value
+    if set(got) != set(names):
+        return None
+    return [got[nm] for nm in names]
+
+
 # ---------------------------------------------------------------- D1
+def STRIP_TEMPS(f):
+    """the names that may be inlined into the mask of the strip: everything bound once except `sorted_indices`
+    (bound twice anyway) -- `sorted_zones = flatten_zones[sorted_indices]` taken *before* the strip is the same mask"""
+    return {k for k in single_assignments(f)}
+
+
+def adjacent_value(func, stmt, expr):
+    """`expr`, or -- when it is a name bound by the statement right before `stmt` in the same block -- that value
+    (`mask = ...; a = a[mask]`: nothing can happen in between)"""
+    if not isinstance(expr, ast.Name):
+        return expr
+    for n in ast.walk(func):
+        for field in ("body", "orelse", "finalbody"):
+            blk = getattr(n, field, None)
+            if isinstance(blk, list) and stmt in blk:
+                i = blk.index(stmt)
+                if i > 0 and isinstance(blk[i - 1], ast.Assign) and len(blk[i - 1].targets) == 1 \
+                        and u(blk[i - 1].targets[0]) == expr.id:
+                    return blk[i - 1].value
+    return expr
+
+
 def fact_strip(mod):
     f = find_func(mod, "_sort_and_stride")
     if f is None:
@@ -57,8 +320,8 @@ def fact_strip(mod):
             if t.startswith("values_by_zones") and first_gather is None:
                 first_gather = n.lineno
             if t == "sorted_indices" and isinstance(n.value, ast.Subscript) and u(n.value.value) == "sorted_indices" \
-                    and u(n.value.slice) in ("np.isfinite(flatten_zones[sorted_indices])",
-                                             "np.isfinite(sorted_zones)"):
+                    and u(inline(adjacent_value(f, n, n.value.slice), f, only=STRIP_TEMPS(f))) in (
+                        "np.isfinite(flatten_zones[sorted_indices])", "np.isfinite(zones.ravel()[sorted_indices])"):
                 strip_line = n.lineno
     # every gather must use fancy indexing with sorted_indices (the 3-D loop form needs equal lengths)
     src = u(f)
@@ -78,9 +341,13 @@ def nan_aware_sum_helper(mod, name):
     if not body or not isinstance(body[-1], ast.Return):
         return False
     for s in body[:-1]:
-        if not (isinstance(s, ast.Assign) and u(s.targets[0]) == a and u(s.value).startswith(f"np.asarray({a}")):
-            return False
-    return u(body[-1].value) == f"np.where(np.all(np.isnan({a}),axis=0),np.nan,np.nansum({a},axis=0))"
+        if isinstance(s, ast.Assign) and u(s.targets[0]) == a and u(s.value).startswith(f"np.asarray({a}"):
+            continue
+        if isinstance(s, ast.Assign) and len(s.targets) == 1 and isinstance(s.targets[0], ast.Name) \
+                and s.targets[0].id in single_assignments(f):
+            continue                                      # a temporary, inlined below
+        return False
+    return cu(inline(body[-1].value, f)) == f"np.where(np.all(np.isnan({a}),axis=0),np.nan,np.nansum({a},axis=0))"
 
 
 def classify_comb(mod, lam):
@@ -92,7 +359,7 @@ def classify_comb(mod, lam):
     if isinstance(body, ast.BinOp) and isinstance(body.op, ast.Pow) and u(body.right) == "2":
         squared = True
         body = body.left
-    s = u(body)
+    s = cu(body)
     if s == f"np.nanmax({a},axis=0)":
         return "nanmax", squared
     if s == f"np.nanmin({a},axis=0)":
@@ -106,17 +373,23 @@ def classify_comb(mod, lam):
 
 
 def dict_call(mod, name):
+    """`name = dict(k=v, ...)` or `name = {'k': v, ...}` at module level"""
     for n in mod.body:
-        if isinstance(n, ast.Assign) and u(n.targets[0]) == name and isinstance(n.value, ast.Call) \
-                and u(n.value.func) == "dict":
-            return {k.arg: k.value for k in n.value.keywords}
+        if isinstance(n, ast.Assign) and u(n.targets[0]) == name:
+            if isinstance(n.value, ast.Call) and u(n.value.func) == "dict" and not n.value.args:
+                return {k.arg: k.value for k in n.value.keywords}
+            if isinstance(n.value, ast.Dict) and all(isinstance(k, ast.Constant) and isinstance(k.value, str) for k in n.value.keys):
+                return {k.value: v for k, v in zip(n.value.keys, n.value.values)}
     return {}
 
 
-BLOCK_SHAPES = {"max": ["{z}.max()"], "min": ["{z}.min()"], "sum": ["{z}.sum()"], "count": ["_stats_count({z})"],
+BLOCK_SHAPES = {"max": ["{z}.max()", "np.max({z})"], "min": ["{z}.min()", "np.min({z})"], "sum": ["{z}.sum()", "np.sum({z})"],
+                "count": ["_stats_count({z})"],
                 # the square is taken in float64 since the D23 repair (a square in the raster's own narrow
                 # integer dtype wraps around; the model's exact arithmetic corresponds to the float form only)
-                "sum_squares": ["({z}.astype(np.float64)**2).sum()", "({z}.astype(float)**2).sum()"]}
+                "sum_squares": ["({z}.astype(np.float64)**2).sum()", "({z}.astype(float)**2).sum()",
+                                "({z}.astype('float64')**2).sum()", "np.sum({z}.astype(np.float64)**2)",
+                                "np.square({z}.astype(np.float64)).sum()"]}
 
 
 def fact_block_stats(mod):
@@ -138,7 +411,12 @@ def fact_dask_args(mod):
         return out
     for n in ast.walk(f):
         if isinstance(n, ast.Call) and isinstance(n.func, ast.Name) and n.func.id in out:
-            out[n.func.id] = [u(a).replace("stats_dict", "").replace("['", "").replace("']", "") for a in n.args]
+            fd = find_func(mod, n.func.id)
+            args = call_args(n, fd) if fd is not None else None
+            if args is None:
+                continue
+            out[n.func.id] = [u(inline(a, f)).replace("stats_dict", "").replace("['", "").replace("']", "").replace('["', "").replace('"]', "")
+                              for a in args]
     return out
 
 
@@ -148,9 +426,19 @@ def fact_cat_start(mod):
     if f is None:
         return False
     for n in f.body:
-        if isinstance(n, ast.For):
+        if isinstance(n, ast.For) and not n.orelse:
+            # the index of the current category: `for j, cat in enumerate(unique_cats)` / `for j in range(len(unique_cats))`
+            it = u(n.iter)
+            if isinstance(n.target, ast.Tuple) and it == "enumerate(unique_cats)":
+                j = u(n.target.elts[0])
+            elif isinstance(n.target, ast.Name) and it in ("range(len(unique_cats))", "range(0,len(unique_cats))",
+                                                           "range(unique_cats.shape[0])", "range(unique_cats.size)"):
+                j = n.target.id
+            else:
+                continue
             for s in n.body:      # statements directly in the loop body: executed for every category
-                if isinstance(s, ast.Assign) and u(s.targets[0]) == "cat_start" and u(s.value) == "zone_cat_breaks[j]":
+                if isinstance(s, ast.Assign) and u(s.targets[0]) == "cat_start" \
+                        and u(inline(s.value, f, only={k for k in single_assignments(f) if k != "cat_start"})) == f"zone_cat_breaks[{j}]":
                     return True
     return False
 
@@ -161,10 +449,16 @@ def select_ids_iterates_second(mod):
     f = find_func(mod, "_select_ids")
     if f is None or [a.arg for a in f.args.args] != ["unique_ids", "ids"]:
         return False
-    for n in f.body:
-        if isinstance(n, ast.For) and u(n.iter) == "ids" and len(n.body) == 1 and isinstance(n.body[0], ast.If) \
-                and u(n.body[0].test) == f"{u(n.target)}inunique_ids":
-            return True
+    # `for i in ids: if i in unique_ids: selected.append(i)` or `return [i for i in ids if i in unique_ids]`
+    if any(it == "ids" and cont == "unique_ids" for _, it, cont in selections(f)):
+        return True
+    for n in ast.walk(f):
+        if isinstance(n, ast.Return) and isinstance(n.value, ast.ListComp):
+            fake = ast.parse("r__ = 0").body[0]
+            fake.value = n.value
+            g = ast.FunctionDef(name="g", args=f.args, body=[fake], decorator_list=[], lineno=0, col_offset=0)
+            if any(it == "ids" and cont == "unique_ids" for _, it, cont in selections(g)):
+                return True
     return False
 
 
@@ -172,14 +466,8 @@ def fact_rows_sorted_numpy(mod):
     f = find_func(mod, "_crosstab_numpy")
     if f is None:
         return False
-    for n in ast.walk(f):
-        if isinstance(n, ast.Assign) and u(n.targets[0]) == "zone_ids" and isinstance(n.value, ast.ListComp):
-            g = n.value.generators
-            if len(g) == 1 and len(g[0].ifs) == 1:
-                v = u(g[0].target)
-                if u(n.value.elt) == v and u(g[0].iter) == "unique_zones" and u(g[0].ifs[0]) == f"{v}inzone_ids":
-                    return True
-    return False
+    # `zone_ids = [z for z in unique_zones if z in zone_ids]`, or the same selection as an appending loop
+    return any(name == "zone_ids" and it == "unique_zones" and cont == "zone_ids" for name, it, cont in selections(f))
 
 
 def fact_rows_sorted_dask(mod):
@@ -190,7 +478,8 @@ def fact_rows_sorted_dask(mod):
         if isinstance(n, ast.Assign) and u(n.targets[0]) == "zone_ids" and isinstance(n.value, ast.Call) \
                 and u(n.value.func) == "_select_ids":
             # the function keeps the members of its 2nd argument that are in the 1st, in the 2nd's order
-            return [u(a) for a in n.value.args] == ["zone_ids", "unique_zones"]
+            args = call_args(n.value, find_func(mod, "_select_ids"))
+            return args is not None and [u(a) for a in args] == ["zone_ids", "unique_zones"]
     return False
 
 
@@ -202,9 +491,41 @@ def fact_stats_aligns(mod, repo):
     calls = any(isinstance(n, ast.Call) and u(n.func) == "validate_arrays" and [u(a) for a in n.args] == ["zones", "values"]
                 for n in ast.walk(f))
     um = ast.parse(open(os.path.join(repo, "xrspatial/utils.py")).read())
-    va = find_func(um, "validate_arrays")
-    rech = va is not None and "arrays[i].data=arrays[i].data.rechunk(first_array.chunks)" in u(va)
-    return calls and rech
+    return calls and validate_arrays_rechunks(find_func(um, "validate_arrays"))
+
+
+def validate_arrays_rechunks(va):
+    """`validate_arrays(*arrays)`: when the first array is dask-backed, every later array whose chunks differ is
+    rechunked to the first one's chunks (any spelling of the loop over the later arrays; unconditional rechunk is fine too)"""
+    if va is None or va.args.vararg is None or va.args.args:
+        return False
+    seq = va.args.vararg.arg
+    first = f"{seq}[0]"
+    for loop, elem in elem_loops(va, seq, tail=True):
+        # the loop must sit under `if isinstance(<first>.data, da.Array):` (or at function level: rechunk of a numpy
+        # array would raise, so a guard is required)
+        guard = None
+        for n in ast.walk(va):
+            if isinstance(n, ast.If) and loop in n.body and not n.orelse:
+                guard = cu(inline(n.test, va))
+                for nm, v in single_assignments_raw(va).items():
+                    if u(v) == first:
+                        guard = guard.replace(f"isinstance({nm}.data", f"isinstance({first}.data")
+        if guard not in (f"isinstance({first}.data,da.Array)", f"isinstance({first}.data,dask.array.Array)"):
+            continue
+        table = {elem: "E_", first: "F_"}
+        for n in va.body:          # `first_array = arrays[0]`
+            if isinstance(n, ast.Assign) and len(n.targets) == 1 and isinstance(n.targets[0], ast.Name) and u(n.value) == first \
+                    and sum(1 for m in ast.walk(va) if isinstance(m, ast.Name) and m.id == n.targets[0].id
+                            and isinstance(m.ctx, ast.Store)) == 1:
+                table[n.targets[0].id] = "F_"
+        body = body_text(loop.body, va, table)
+        if body in (["ifF_.chunks!=E_.chunks:\nE_.data=E_.data.rechunk(F_.chunks)"],
+                    ["ifnotF_.chunks==E_.chunks:\nE_.data=E_.data.rechunk(F_.chunks)"],
+                    ["ifE_.chunks!=F_.chunks:\nE_.data=E_.data.rechunk(F_.chunks)"],
+                    ["E_.data=E_.data.rechunk(F_.chunks)"]):
+            return True
+    return False
 
 
 def fact_crosstab_aligns(mod, repo):
@@ -217,6 +538,85 @@ def fact_crosstab_aligns(mod, repo):
     a2 = "values=values.rechunk(zones.chunks)" in src_g or \
          ("validate_arrays(zones,values)" in src_f and fact_stats_aligns(mod, repo))
     return a2, a3
+
+
+# ---------------------------------------------------------------- integer width of the breaks / the percentage expression
+INT_BITS = {"np.int8": 8, "np.int16": 16, "np.int32": 32, "np.int64": 64, "np.intp": 64, "np.int_": 64, "int": 64,
+            "'int8'": 8, "'int16'": 16, "'int32'": 32, "'int64'": 64, "'i4'": 32, "'i8'": 64, "'i2'": 16, "'i1'": 8}
+
+
+def fact_strides_bits(mod):
+    """`_strides` returns `strides`, created by `np.zeros(<n>, dtype=<signed integer type>)` (or np.empty / np.full):
+    the width of that type; 0 = not recognised"""
+    f = find_func(mod, "_strides")
+    if f is None:
+        return 0
+    rets = [n for n in ast.walk(f) if isinstance(n, ast.Return)]
+    if len(rets) != 1 or not isinstance(rets[0].value, ast.Name):
+        return 0
+    name = rets[0].value.id
+    made = [n for n in ast.walk(f) if isinstance(n, ast.Assign) and len(n.targets) == 1 and u(n.targets[0]) == name]
+    if len(made) != 1 or not isinstance(made[0].value, ast.Call) or u(made[0].value.func) not in ("np.zeros", "np.empty", "np.full"):
+        return 0
+    call = made[0].value
+    dt = [k.value for k in call.keywords if k.arg == "dtype"]
+    npos = 3 if u(call.func) == "np.full" else 2
+    if not dt and len(call.args) == npos:
+        dt = [call.args[npos - 1]]
+    if len(dt) != 1:
+        return 0
+    return INT_BITS.get(u(dt[0]).replace('"', "'"), 0)
+
+
+def pexpr_of(node, table):
+    """Python expression over count / total / numeric literals / `*` / `/` -> Lean `PExpr` term; None = not of that form"""
+    t = u(node)
+    if t in table:
+        return "." + table[t]
+    if isinstance(node, ast.Constant) and isinstance(node.value, bool):
+        return None
+    if isinstance(node, ast.Constant) and isinstance(node.value, int) and 0 <= node.value < 2 ** 31:
+        return f"(.lit {node.value})"
+    if isinstance(node, ast.Constant) and isinstance(node.value, float) and node.value == int(node.value) and 0 <= node.value < 2 ** 31:
+        return f"(.flit {int(node.value)})"
+    if isinstance(node, ast.BinOp) and isinstance(node.op, (ast.Mult, ast.Div)):
+        a, b = pexpr_of(node.left, table), pexpr_of(node.right, table)
+        if a is None or b is None:
+            return None
+        return f"(.{'mul' if isinstance(node.op, ast.Mult) else 'div'} {a} {b})"
+    return None
+
+
+def fact_pct_expr(mod, fname):
+    """under `if agg == 'percentage':` of `fname`: one loop over `cat_ids` whose body is the single statement
+    `D[cat] = <expr over D[cat], D[TOTAL_COUNT], literals>`; returns (Lean PExpr term, python text)"""
+    f = find_func(mod, fname)
+    if f is None:
+        return "PExpr.unknown", "no " + fname
+    found = []
+    for n in ast.walk(f):
+        if isinstance(n, ast.If) and cu(n.test) in ("agg=='percentage'", "'percentage'==agg"):
+            for loop, elem in elem_loops(f, "cat_ids", within=n.body):
+                body = [st for st in loop.body if not (isinstance(st, ast.Expr) and isinstance(st.value, ast.Constant))]
+                if len(body) != 1 or not isinstance(body[0], ast.Assign) or len(body[0].targets) != 1:
+                    return "PExpr.unknown", "loop body is not a single assignment"
+                tgt = body[0].targets[0]
+                if not (isinstance(tgt, ast.Subscript) and isinstance(tgt.value, ast.Name) and u(tgt.slice) == elem):
+                    return "PExpr.unknown", "target is not D[cat]"
+                d = tgt.value.id
+                table = {f"{d}[{elem}]": "count", f"{d}[TOTAL_COUNT]": "total", f"{d}['{TOTAL}']": "total"}
+                for nm, v in single_assignments_raw(f).items():      # `totals = D[TOTAL_COUNT]` inside the branch
+                    if u(v) in (f"{d}[TOTAL_COUNT]", f"{d}['{TOTAL}']"):
+                        table[nm] = "total"
+                e = pexpr_of(body[0].value, table)
+                found.append((e, ast.unparse(body[0].value)))
+    if len(found) != 1 or found[0][0] is None:
+        return "PExpr.unknown", (found[0][1] if found else "no percentage loop")
+    e = found[0][0]
+    return ("PExpr" + e[1:-1] if e.startswith("(") else "PExpr" + e), found[0][1]
+
+
+TOTAL = "_total_count"
 
 
 def generate(repo):
@@ -234,10 +634,14 @@ def generate(repo):
     rows_dk = fact_rows_sorted_dask(mod)
     st_al = fact_stats_aligns(mod, repo)
     a2, a3 = fact_crosstab_aligns(mod, repo)
+    bits = fact_strides_bits(mod)
+    pct_np, pct_np_src = fact_pct_expr(mod, "_crosstab_numpy")
+    pct_dk, pct_dk_src = fact_pct_expr(mod, "_crosstab_df_dask")
     rep = dict(stripIndices=strip, strip_note=strip_note, comb=combs, blockStatsOk=block_ok, daskArgs=args,
                catStartAlways=cat_always, rowsSortedNumpy=rows_np, rowsSortedDask=rows_dk,
-               statsAligns=st_al, crosstab2dAligns=a2, crosstab3dAligns=a3)
-    lines = ["import XrsVerif.Model.ZonalDask",
+               statsAligns=st_al, crosstab2dAligns=a2, crosstab3dAligns=a3,
+               stridesBits=bits, pctNumpy=pct_np, pctNumpy_src=pct_np_src, pctDask=pct_dk, pctDask_src=pct_dk_src)
+    lines = ["import XrsVerif.Model.Crosstab",
              "/-! GENERATED by harness/facts_zonal.py from the current /repo source (xrspatial/zonal.py) -- do not edit. -/",
              "namespace XrsVerif.Gen.Zonal", "open XrsVerif.Zonal", "",
              "/-- `_sort_and_stride` removes the non-finite-zone entries from `sorted_indices` before the gather -/",
@@ -261,5 +665,11 @@ def generate(repo):
              f"def statsAligns : Bool := {lean_bool(st_al)}",
              f"def crosstab2dAligns : Bool := {lean_bool(a2)}",
              f"def crosstab3dAligns : Bool := {lean_bool(a3)}", "",
+             "/-- width (bits) of the signed integers `_strides` returns; the crosstab counts are differences of them -/",
+             f"def stridesBits : Nat := {bits}", "",
+             "/-- the `percentage` expression of `_crosstab_numpy`: " + pct_np_src.replace("-/", "- /") + " -/",
+             f"def pctNumpy : PExpr := {pct_np}",
+             "/-- the `percentage` expression of `_crosstab_df_dask`: " + pct_dk_src.replace("-/", "- /") + " -/",
+             f"def pctDask : PExpr := {pct_dk}", "",
              "end XrsVerif.Gen.Zonal", ""]
     yield "Zonal.lean", "\n".join(lines), rep
